@@ -246,6 +246,90 @@ class World:
         return out
 
 
+def shutdown_case(drop: int | None) -> dict:
+    """The controller's last exchange: the real Bridge.shutdown() against the real Executor.recv_loop, every frame
+    delivered except the drop-th frame put on the wire after shutdown() began (None: no loss). Whenever the bridge
+    would block, all frames in flight arrive, the executor's loop runs one pass and the timeout elapses."""
+    w = World(0)
+    n0 = len(w.net.sent_log)
+    state = {"nested": False, "dropped": False, "blocks": 0}
+
+    def flush():
+        while w.net.flight:
+            nth = None
+            if drop is not None and not state["dropped"]:
+                # frames are numbered in the order they were put on the wire since shutdown() began
+                sent_since = len(w.net.sent_log) - n0
+                inflight = len(w.net.flight)
+                first_idx = sent_since - inflight
+                if first_idx <= drop < sent_since:
+                    nth = drop - first_idx
+            if nth is not None:
+                w.net.drop(nth)
+                state["dropped"] = True
+            else:
+                w.net.deliver(0)
+
+    def hook(cond, timeout):
+        if state["nested"]:
+            if w.allow_timeout and timeout is not None:
+                w.allow_timeout = False
+                w.clock[0] += int(timeout) * 1_000_000
+                return
+            raise Yield()
+        state["blocks"] += 1
+        if state["blocks"] > 2000:
+            raise common.HarnessError("Bridge.shutdown does not terminate in the stepped world")
+        flush()
+        state["nested"] = True
+        try:
+            if not w.exec_failed and not w.exec_done:
+                w._exec_pass()
+        finally:
+            state["nested"] = False
+        flush()
+        w.clock[0] += int(timeout if timeout is not None else 1000) * 1_000_000
+
+    w.exec_done = False
+    w.net.block = hook
+    real_terminate = w.ex.terminate
+
+    def terminate():
+        w.exec_done = True
+        real_terminate()
+
+    w.ex.terminate = terminate
+    t0 = w.clock[0]
+    err = None
+    try:
+        bridge_mod.Bridge.shutdown(w.br)
+    except Exception as e:  # noqa
+        err = repr(e)
+    frames = len(w.net.sent_log) - n0
+    return {"drop": drop, "frames": frames, "executor_told": w.exec_done, "hosts_left": sorted(w.br.sender.hosts), "virtual_s": (w.clock[0] - t0) / 1e9,
+            "error": err, "dropped": state["dropped"]}
+
+
+def shutdown_exchange() -> tuple[list, int]:
+    base = shutdown_case(None)
+    out = []
+    if base["error"] or not base["executor_told"]:
+        out.append(("shutdown_not_delivered", "fault-free shutdown exchange did not reach the executor", f"{base}", {"part": "shutdown", "drop": None}))
+        return out, 1
+    n = 1
+    for i in range(base["frames"]):
+        r = shutdown_case(i)
+        n += 1
+        if not r["dropped"]:
+            continue
+        if r["error"]:
+            out.append(("shutdown_raised", "Bridge.shutdown raised after one lost frame", f"{r}", {"part": "shutdown", "drop": i}))
+        elif not r["executor_told"]:
+            out.append(("lost_silently", "ExecutorShutdown lost once is never re-sent: the executor keeps running after the controller has gone",
+                        f"{r}", {"part": "shutdown", "drop": i}))
+    return out, n
+
+
 def build(cfg, hist):
     w = World(cfg["faults"])
     for ev in hist:
@@ -283,10 +367,17 @@ def run(ctx):
             ctx.add_violation(common.Violation({"monitor": mon, "cause": "loops: " + cause}, f"[loops {cfg}] {m}; history={hist}", {"part": "loops", "cfg": cfg, "history": hist}))
         for h in r["samples"][:1]:
             ctx.sample({"part": "loops", "cfg": cfg, "history": h})
-    return {"states": tot_s, "transitions": tot_t, "summary": summary}
+    viols, n = shutdown_exchange()
+    for (mon, cause, m, rp) in viols:
+        ctx.add_violation(common.Violation({"monitor": mon, "cause": "loops: " + cause}, m, rp))
+    summary.append({"shutdown_exchange_single_frame_losses": n})
+    return {"states": tot_s, "transitions": tot_t + n, "summary": summary}
 
 
 def replay(ctx, data):
+    if data.get("part") == "shutdown":
+        viols, _ = shutdown_exchange()
+        return [common.Violation({"monitor": m, "cause": "loops: " + c}, msg_, rp) for (m, c, msg_, rp) in viols if rp == data]
     w = build(data["cfg"], data["history"])
     v = list(w.viol) or build(data["cfg"], data["history"]).closure()
     return [common.Violation({"monitor": m, "cause": "loops: " + c}, msg_, data) for (m, c, msg_) in v]
